@@ -60,6 +60,7 @@ def configs(tier):
             if mode == "clip" and n > 3:
                 continue
             out.append(("get_stats", n, mode))
+    out.append(("get_stats", 3, "clip_niter_only"))
     out.append(("get_stats2d", 2, "plain"))
     for n in ((1, 2) if q else (1, 2, 3)):
         out.append(("covcor", n))
@@ -278,6 +279,25 @@ def harness(cx, cfg):
             kw["nsig"] = nsig
             kw["niter"] = 1
             kw["silent"] = True
+        if mode == "clip_niter_only":
+            # clipping requested through niter (or nsig) alone: the statistics reported are sigma_clip's, called
+            # with the keywords given (a 4-sigma outlier needs 18 points, beyond the size bound, so the
+            # delegation itself is decided: sigma_clip by contract)
+            calls = []
+            M, Sd, E = cx.real("clip_mean"), cx.real("clip_std"), cx.real("clip_err")
+
+            def fake_sigma_clip(arr, weights=None, **kw2):
+                calls.append(kw2)
+                return M, Sd, E
+            m.sigma_clip = fake_sigma_clip
+            which = cx.choice("which", 2)
+            kw2 = {"niter": 2} if which == 0 else {"nsig": cx.real("nsig", 0.5, 6)}
+            r = m.get_stats(symnp.array(x), silent=True, **kw2)
+            cx.check("get_stats(niter=) / get_stats(nsig=): the clipping routine is used, with the keywords given",
+                     len(calls) == 1 and all(calls[0].get(k) is v or calls[0].get(k) == v for k, v in kw2.items()) and calls[0].get("get_err"))
+            cx.check("get_stats(niter=) / get_stats(nsig=): reports the clipped mean, deviation and error",
+                     r["mean"] is M and r["std"] is Sd and r["err"] is E)
+            return
         r = m.get_stats(symnp.array(x), **kw)
         cx.check_eq("get_stats min", r["min"], symnp._minimum_cells(x))
         cx.check_eq("get_stats max", r["max"], symnp._maximum_cells(x))
@@ -507,6 +527,13 @@ def replay(cand):
             margins = [abs(abs(x[i] - mu) - nsig * sd) for i in range(n)]
             if min(margins) > 1e-9 * (1 + abs(nsig * sd)):
                 return {"reproduced": True, "key": "sigma_clip-subset", "what": "%s kept %r, the stated rule keeps %r" % (call, idx, S)}
+        # points exactly on the boundary, in cases where mean and deviation are exact in binary: "strictly within"
+        for xb, ns, keep_n in ((np.array([1.0] * 4 + [-1.0] * 4 + [4.0, -4.0]), 2.0, 8), (np.array([0.0] * 30 + [8.0, -8.0]), 4.0, 30)):
+            for wb in ((None, np.ones(xb.size)) if wt else (None,)):
+                gi = su.sigma_clip(xb, weights=wb, niter=1, nsig=ns, get_indices=True, silent=True)[-1]
+                if len(gi) != keep_n:
+                    return {"reproduced": True, "key": "sigma_clip-boundary", "what": "sigma_clip(%r, nsig=%r, niter=1) keeps %d points; the points exactly nsig deviations from the mean are not strictly within and must go (%d stay)"
+                            % (xb.tolist(), ns, len(gi), keep_n)}
         return no
     if what in ("interplin", "interplin_scalar"):
         _, nn, nu = cfg
@@ -524,6 +551,16 @@ def replay(cand):
         if not close(r, want, 1e-9):
             return {"reproduced": True, "key": "interplin", "what": "interplin(v=%r, x=%r, u=%r) -> %r, piecewise-linear rule gives %r"
                     % (vs.tolist(), xs.tolist(), us.tolist(), np.asarray(r).tolist(), want)}
+        return no
+    if what in ("get_stats", "get_stats2d") and cfg[2] == "clip_niter_only":
+        rs = np.random.RandomState(4)
+        xb = np.concatenate([rs.normal(size=40), [25.0, -30.0]])
+        for kw2 in ({"niter": 2}, {"nsig": 3.0}, {"niter": 3, "nsig": 3.5}):
+            r = su.get_stats(xb, silent=True, **kw2)
+            cm, cs, ce = su.sigma_clip(xb, get_err=True, silent=True, **kw2)
+            if not close([r["mean"], r["std"], r["err"]], [cm, cs, ce], 1e-12):
+                return {"reproduced": True, "key": "get_stats-clip", "what": "get_stats(x, %s) reports mean/std/err %r, sigma_clip with the same keywords gives %r"
+                        % (", ".join("%s=%r" % kv for kv in kw2.items()), (float(r["mean"]), float(r["std"]), float(r["err"])), (float(cm), float(cs), float(ce)))}
         return no
     if what in ("get_stats", "get_stats2d"):
         _, n, mode = cfg
